@@ -120,6 +120,45 @@ def sec_decorator(rep):
             rep.check(f"C09/decorator/below-hadronic-threshold/{cls.__module__.split('.')[-1]}.{cls.__name__}/nf={nf}", case, sy, pre + [below(sy, sy.x, sy.m2c)])
 
 
+def sec_decorator_shared_esf(rep):
+    """One ESF carries the channels of EVERY massive flavour (F_total, F_light in FFNS with several
+    massive quarks): on one ESF object, channels built for charm, then bottom, then charm again each
+    decide the hadronic threshold with their OWN mass -- between the two thresholds the charm channels
+    answer with their coefficient functions and the bottom channels with the empty RSL, whatever was
+    built first (frame: the decision is a function of (x, Q2, m2hq); nothing about it lives on the ESF)."""
+    from yadism.coefficient_functions.partonic_channel import RSL
+
+    nc, cc, errors = heavy_nc_classes()
+    # x = 0.5: Q2 (1-x)/x = Q2;  4 m2c = 8 < Q2 = 20 <= 4 m2b = 80
+    syn = H.Sy(extra="z").numeric({"x": 0.5, "Q2": 20.0, "m2c": 2.0, "m2b": 20.0})
+    for order_nm, masses in (("charm, bottom, charm", (2.0, 20.0, 2.0)), ("bottom, charm, bottom", (20.0, 2.0, 20.0))):
+        for cls in sorted(nc, key=lambda c: (c.__module__, c.__name__)):
+            mod = importlib.import_module(cls.__module__)
+            kind = KINDMAP[cls.__module__.split(".")[-1].split("_")[0]]
+            rep.cases += 1
+            try:
+                lep, itp = LeProStub(syn), InterpStub(syn)
+                cfg = H.make_configs(syn, process="NC", scheme="FFNS", nf_ff=3, pto=3)
+                esf = H.FakeESF(syn.x, syn.Q2, H.obs_name(kind, "total"), cfg)
+                attrs_before = set(vars(esf))
+                got = []
+                with rebind(*([(mod, "LeProHQ", lep)] + ([(mod, "interpolator", itp)] if hasattr(mod, "interpolator") else []))):
+                    for m2 in masses:
+                        o = cls(esf, 3, m2hq=m2)
+                        empties = []
+                        for k in range(4):
+                            rsl = o[k]()
+                            empties.append(isinstance(rsl, RSL) and rsl.reg is None and rsl.sing is None and rsl.loc is None)
+                        got.append(empties)
+                exp_below = [m2 == 20.0 for m2 in masses]
+                # below threshold: every order empty; above: at least one order answers with a coefficient
+                ok = all((all(e) if b else not all(e)) for e, b in zip(got, exp_below)) and set(vars(esf)) == attrs_before
+                detail = f"all orders empty per channel built: {[all(e) for e in got]} (expected {exp_below}); attributes added to the ESF: {sorted(set(vars(esf)) - attrs_before)}"
+            except Exception as e:  # noqa
+                ok, detail = False, f"{type(e).__name__}: {e}"
+            rep.add(ob_eval(f"C09/decorator/shared ESF between the charm and bottom thresholds/{cls.__module__.split('.')[-1]}.{cls.__name__}/built for {order_nm}", ok, detail=detail, inputs={} if ok else {"x": 0.5, "Q2": 20.0, "m2c": 2.0, "m2b": 20.0, "class": cls.__name__, "sequence": order_nm, "observed": detail}, replay={"confirmed": True, "python": "one ESF object; cls(esf, 3, m2hq=m) for m in the sequence; [o[k]() for k in range(4)]"}))
+
+
 def sec_closures(rep):
     """Above the hadronic threshold, every regular closure vanishes for partonic fractions z with
     Q2(1-z)/z <= 4 m2 and does not reach the external libraries there."""
@@ -394,7 +433,7 @@ def run(rep, tier, seed, only=None):
         "conv.convolution is exercised with an eko basis-function stub (A-eko) and scipy.integrate.quad must not be reached on the zero paths",
     )
     rep.stub("LeProHQ.* -> uninterpreted recording stub", "heavy.n3lo.interpolator -> uninterpreted recording stub", "scipy.integrate.quad -> must-not-be-called stub", "eko BasisFunction -> BasisStub")
-    for nm, f in (("predicate", sec_threshold_predicate), ("decorator", sec_decorator), ("closures", sec_closures), ("cc", sec_cc), ("masses", sec_generator_masses), ("ccarg", sec_cc_argument_only), ("point_use", sec_point_use), ("realruns", lambda r: sec_real_runs(r, tier))):
+    for nm, f in (("predicate", sec_threshold_predicate), ("decorator", sec_decorator), ("sharedesf", sec_decorator_shared_esf), ("closures", sec_closures), ("cc", sec_cc), ("masses", sec_generator_masses), ("ccarg", sec_cc_argument_only), ("point_use", sec_point_use), ("realruns", lambda r: sec_real_runs(r, tier))):
         if only and only not in nm:
             continue
         rep.add(guarded(f"C09/{nm}", lambda f=f: (f(rep), [])[1]))
